@@ -18,7 +18,6 @@ use std::fmt;
 use std::str::FromStr;
 
 use crate::message::Qclass;
-use crate::util::Caseless;
 
 /// Represents a class in the DNS.
 ///
@@ -60,23 +59,22 @@ impl FromStr for Class {
     type Err = &'static str;
 
     fn from_str(text: &str) -> Result<Self, Self::Err> {
-        match Caseless(text) {
-            Caseless("IN") => Ok(Self::IN),
-            Caseless("CH") => Ok(Self::CH),
-            Caseless("HS") => Ok(Self::HS),
-            _ => {
-                if text
-                    .get(0..5)
-                    .map_or(false, |prefix| prefix.eq_ignore_ascii_case("CLASS"))
-                {
-                    text[5..]
-                        .parse::<u16>()
-                        .map(Self::from)
-                        .or(Err("class value is not a valid unsigned 16-bit integer"))
-                } else {
-                    Err("unknown class")
-                }
-            }
+        if text.eq_ignore_ascii_case("IN") {
+            Ok(Self::IN)
+        } else if text.eq_ignore_ascii_case("CH") {
+            Ok(Self::CH)
+        } else if text.eq_ignore_ascii_case("HS") {
+            Ok(Self::HS)
+        } else if text
+            .get(0..5)
+            .map_or(false, |prefix| prefix.eq_ignore_ascii_case("CLASS"))
+        {
+            text[5..]
+                .parse::<u16>()
+                .map(Self::from)
+                .or(Err("class value is not a valid unsigned 16-bit integer"))
+        } else {
+            Err("unknown class")
         }
     }
 }
